@@ -102,7 +102,7 @@ CHECKS = {
               "for all 7^L histories over four service types (two sharing a message type, one with two, one registering under another's name) and emits every history with the oracle's expectation "
               "per step; each is replayed on a fresh real Server on loopback and all six (service, message) pairs are probed after every step."),
         design_ref="DESIGN.md section 7 C13",
-        note="L = 4 quick / 5 thorough; a second run adds requests held inside their handler. Handler-key hash collisions are outside the model."),
+        note="L = 4 quick / 5 thorough; a second run adds requests held inside their handler; a third run adds pairs of registry changes made at the same time by two threads (action Par: either order, pairs whose orders agree) on a server that also holds 64 bystander services. Handler-key hash collisions are outside the model."),
     "C15": dict(
         engine="tlc + h-node",
         technique="TLC enumeration (exhaustive + simulated) of membership-update/selection histories, replayed on the real selector actor, outcomes validated by TLC against the postcondition Allowed of Selector.tla",
@@ -114,13 +114,13 @@ CHECKS = {
         note="History-dependence lives in the implementation (cursors, cache, stale data centres), which is why histories are enumerated although the oracle is history-free. Random DC choice sampled by repetition."),
     "C16": dict(
         engine="tlc + h-node",
-        technique="TLC exhaustive model checking of Membership.tla + replay of every behaviour on the real watch_membership_changes task and a real WatchStream subscriber",
+        technique="TLC exhaustive model checking of Membership.tla (snapshots -> deltas -> latest-value channel -> subscriber -> task distributor / replication cycle) + replay of every behaviour on the real watch_membership_changes task and a real WatchStream subscriber + replay of the read-at-once behaviours on the real store watcher, task distributor and replication cycle with real peers",
         text=("Membership.tla models snapshot sequence -> delta computation -> latest-value channel -> subscriber; TLC checks for every snapshot sequence "
               "(join, leave, address change, rejoin), subscription point and read placement that a caught-up subscriber holds exactly the live "
               "membership (modulo the two listed known findings) and that every delta reports departures with the address they had; every behaviour "
               "is replayed on the real watcher task and a real subscriber, comparing delta contents and the accumulated map."),
         design_ref="DESIGN.md section 7 C16",
-        note="Known findings C16-late-subscriber and C16-skipped-delta (latest-value channel of deltas) are recorded in known_findings.json; any other mismatch is a violation. Chitchat's own failure detection is outside the model."),
+        note="Known findings C16-late-subscriber and C16-skipped-delta (latest-value channel of deltas) are recorded in known_findings.json; any other mismatch is a violation. Chitchat's own failure detection is outside the model. The consumers of the events are part of the model (DistTick / PollRound: the store's watcher hands every change to the task distributor and the replication cycle) and are bound by a second replay: the real store watcher, task distributor and replication cycle over a harness-built node handle, with real peer servers; judged by the distributor's live members after its drain, by which peers' storages received the batch built at that tick, and by the replication cycle's live members at the start of its round (keyspace-tracker contents are reported as drift only)."),
     "C17": dict(
         engine="tlc + h-ec",
         technique="TLC exhaustive exploration of the reference model Storage.tla + replay of every transition on MemStore, SQLite (memory and file) and LMDB with read-back comparison",
@@ -129,7 +129,7 @@ CHECKS = {
               "backends in fresh keyspaces with boundary ids / timestamps / payloads, and iter_metadata, get, multi_get and the keyspace list are "
               "compared with the model's prediction; persistent backends are closed and reopened on the reopen edges (LMDB: new handle and real environment close)."),
         design_ref="DESIGN.md section 7 C17",
-        note="Value space (u64 ids, payload bytes) covered by rotating boundary values, not exhaustively. Quick tier samples every 8th edge on SQLite/LMDB. Bulk calls may list an id twice (the last version stays). LMDB environments are never closed in-process (unsafe while datacake-lmdb's background thread exits); reopen edges are judged in-process on a new handle and by a fresh process opening the files; long LMDB runs are split over child processes. Random call sequences from all four backends are validated by Trace_Storage.tla."),
+        note="Value space (u64 ids, payload bytes) covered by rotating boundary values, not exhaustively. Quick tier samples every 8th edge on SQLite/LMDB. Bulk calls may list an id twice (the last version stays). LMDB environments are never closed in-process (unsafe while datacake-lmdb's background thread exits); reopen edges are judged in-process on a new handle and by a fresh process opening the files; long LMDB runs are split over child processes. Random call sequences from all four backends are validated by Trace_Storage.tla; they include a bulk write larger than the LMDB backend's map: a refused bulk write must leave exactly the documents it reports as written (event put_failed), also after the reopen that follows."),
     "C02": dict(
         engine="tlc + h-ec",
         technique="TLC exhaustive model checking of Keyspace.tla (actor + storage with every storage outcome) + edge-complete replay on a real KeyspaceActor over a fault-injecting MemStore",
@@ -146,7 +146,7 @@ CHECKS = {
               "load_states_from_storage. TLC checks that the rebuilt set is exactly what storage holds and that every acknowledged mutation is still "
               "visible; every crash edge is reproduced on the real code with a storage wrapper that parks the call after the inner write."),
         design_ref="DESIGN.md section 7 C07",
-        note="Crash inside bulk requests is not modelled (single requests only); persistent backends' reopen is covered by C17; convergence after restart by C01."),
+        note="Crash inside bulk requests is not modelled (single requests only); persistent backends' reopen is covered by C17; convergence after restart by C01. After every request the node is also started with a storage read error (keyspace list / metadata scan, action FailedStart): the start must be refused, or what it built must be what storage holds."),
     "C19": dict(
         engine="tlc + h-ec",
         technique="TLC-generated population of set states (MC_OrswotOps state graph) transferred through the real ReplicationService/ReplicationClient; undecodable states injected by a fake server",
@@ -183,7 +183,7 @@ CHECKS = {
               "behaviour is replayed step by step on real components and every node's reads (ids, timestamps, bytes) and set/storage agreement are compared "
               "with the specification's expectation."),
         design_ref="DESIGN.md section 7 C01",
-        note="Exhaustive only for small bounds; simulation samples the rest. The poller's keyspace tracker is modelled (WithTracker) and bound through real poller rounds; the distributor's aggregation loop has its own specification (Distributor.tla, see C06). The progress watcher of begin_keyspace_sync polls every 2 ms in these runs (guarded hook). System level: two real DatacakeNode clusters driven through the public API at level None (peers learn through the real task distributor); all nodes must end with the same stamp, kind and bytes per document (Trace_Consistency.tla, event `final`)."),
+        note="Exhaustive only for small bounds; simulation samples the rest. The poller's keyspace tracker is modelled (WithTracker) and bound through real poller rounds; the distributor's aggregation loop has its own specification (Distributor.tla, see C06). The progress watcher of begin_keyspace_sync polls every 2 ms in these runs (guarded hook). System level: two real DatacakeNode clusters driven through the public API at level None (peers learn through the real task distributor); all nodes must end with the same stamp, kind and bytes per document (Trace_Consistency.tla, event `final`), in three keyspaces (same ids with other contents; one keyspace that comes into being last). In tracked mode every behaviour also runs in a second keyspace that receives only what concerns the last key, so that the real poller rounds see keyspaces changing at different moments."),
     "C06": dict(
         engine="tlc + h-ec",
         technique="TLC exhaustive model checking of Consistency.tla + TLC trace validation of calls made through the public API of real loopback clusters with failing replicas",
@@ -201,5 +201,5 @@ CHECKS = {
               "task inside a turmoil simulation performs the schedules in simulated time against the real RpcClient/Server (fast and slow handler); "
               "Trace_RpcNet.tla validates every request's outcome (reply identity and payload, handler run count, elapsed time)."),
         design_ref="DESIGN.md section 7 C14",
-        note="Simulated network (turmoil 0.4). Quick tier runs every 40th model schedule plus 400 random ones; thorough every 6th plus 4000. Every other request goes through a clone of the configured client."),
+        note="Simulated network (turmoil 0.4). Quick tier runs every 40th model schedule plus 400 random ones; thorough every 6th plus 4000. Every other request goes through a clone of the configured client. Request timeouts are 500 ms and 2 s in the model's schedules (shorter than / equal to the 2 s connect timeout), also 1 s and 3 s in the random ones."),
 }
